@@ -25,6 +25,8 @@ import Aegean.Model.C03
 import Aegean.Spec.C03
 import Aegean.Proofs.C03
 import Aegean.Proofs.C03Real
+import Aegean.Proofs.C03Gen
+import Aegean.Proofs.C03Box
 
 namespace Aegean.Properties.C03
 open Aegean.Model.C03 Aegean.Proofs.C03
@@ -166,6 +168,69 @@ theorem ra_wrap_range (ra : ℝ) (h1 : -360 ≤ ra) (h2 : ra < 360) :
   split_ifs with h
   · exact ⟨by linarith, by linarith, Or.inr rfl⟩
   · exact ⟨not_lt.1 h, h2, Or.inl rfl⟩
+
+/-! #### the same clauses for the definitions re-assembled from the regenerated source pieces -/
+
+/-- obligation: the two `while` loops of the current `pa_limit` (bounds, steps and comparison kinds
+    regenerated from source) are the loops of the model, for every fuel -/
+theorem gen_paLimit (fuel : Nat) (pa : ℝ) : paLimitG fuel pa = paLimit fuel pa := by
+  unfold paLimitG paLimit
+  rw [upLoopG_eq, downLoopG_eq]
+
+/-- obligation: the current `fix_shape` (test kind and swapped branch regenerated) is the model's -/
+theorem gen_fixShape (s : Shape ℝ) : fixShapeG s = fixShape s := by
+  unfold fixShapeG fixShape
+  simp only [cmpLe, Gen.C03.fixClosed, Gen.C03.fixA, Gen.C03.fixB, Gen.C03.fixPa, Gen.C03.fixErrA,
+    Gen.C03.fixErrB, fixClosedHand, fixAHand, fixBHand, fixPaHand, fixErrAHand, fixErrBHand, Nat.zero_ne_one, if_false]
+  refine ite_decide_congr _ _ _ _ _ Iff.rfl ?_
+  first | rfl | (congr 1 <;> first | rfl | (simp only [R.real_ofNat]; push_cast; ring))
+
+/-- obligation: the current RA wrap is the model's -/
+theorem gen_raWrap (ra : ℝ) : raWrapG ra = raWrap ra := by
+  unfold raWrapG raWrap
+  simp only [cmpLe, Gen.C03.wrapClosed, Gen.C03.raWrapBound, Gen.C03.raWrapNext, wrapClosedHand, raWrapBoundHand,
+    raWrapNextHand, Nat.zero_ne_one, if_false]
+  refine ite_decide_congr _ _ _ _ _ Iff.rfl ?_
+  first | rfl | (simp only [R.real_ofNat]; push_cast; ring)
+
+/-- **pa_limit_fuel_independent**: once the fuel covers |pa| the result no longer depends on it —
+    the fuel-indexed recursion computes what the Python `while` loops compute on termination -/
+theorem pa_limit_fuel_independent (pa : ℝ) :
+    ∃ N, ∀ n ≥ N, ∀ m ≥ N, paLimitG n pa = paLimitG m pa := by
+  obtain ⟨N, hN⟩ := pa_limit_range pa
+  refine ⟨N, fun n hn m hm => ?_⟩
+  obtain ⟨a1, a2, ka, ha⟩ := hN n hn
+  obtain ⟨b1, b2, kb, hb⟩ := hN m hm
+  rw [gen_paLimit, gen_paLimit]
+  exact range_unique _ _ pa ka kb a1 a2 b1 b2 ha hb
+
+/-- the regenerated `pa_limit` lands in (−90, 90] and preserves the angle modulo 180 -/
+theorem pa_limit_range_gen (pa : ℝ) :
+    ∃ N, ∀ fuel ≥ N, -90 < paLimitG fuel pa ∧ paLimitG fuel pa ≤ 90 ∧
+      ∃ k : ℤ, paLimitG fuel pa = pa + 180 * (k : ℝ) := by
+  obtain ⟨N, hN⟩ := pa_limit_range pa
+  exact ⟨N, fun fuel hf => by rw [gen_paLimit]; exact hN fuel hf⟩
+
+/-- the regenerated `fix_shape`: a ≥ b and the same ellipse -/
+theorem fix_shape_order_gen (s : Shape ℝ) :
+    (fixShapeG s).b ≤ (fixShapeG s).a ∧
+    ∀ x y, ellQ (fixShapeG s).a (fixShapeG s).b (fixShapeG s).pa x y = ellQ s.a s.b s.pa x y := by
+  rw [gen_fixShape]
+  exact ⟨(fix_shape_order s).1, (fix_shape_order s).2.2⟩
+
+theorem ra_wrap_range_gen (ra : ℝ) (h1 : -360 ≤ ra) (h2 : ra < 360) :
+    0 ≤ raWrapG ra ∧ raWrapG ra < 360 ∧ (raWrapG ra = ra ∨ raWrapG ra = ra + 360) := by
+  rw [gen_raWrap]; exact ra_wrap_range ra h1 h2
+
+/-- **int_flux_identity_gen**: the `int_flux` expression and `get_beamarea_pix` as they stand in the
+    source: on a locally uniform grid (sky size = k · pixel size) the catalogue's
+    `int_flux` IS `peak·a·b/(psf_a·psf_b)` -/
+theorem int_flux_identity_gen (peak sx sy cc pa pb k : ℝ) (hk : k ≠ 0) (hpa : pa ≠ 0) (hpb : pb ≠ 0) :
+    Gen.C03.intFluxG peak sx sy cc Real.pi (Gen.C03.beamAreaG pa pb Real.pi)
+      = peak * (k * (sx * cc)) * (k * (sy * cc)) / ((k * pa) * (k * pb)) := by
+  have hpi : Real.pi ≠ 0 := Real.pi_ne_zero
+  simp only [Gen.C03.intFluxG, Gen.C03.beamAreaG, intFluxGHand, beamAreaGHand, R.real_npow]
+  field_simp
 
 /-- the model's outputs satisfy the range clauses of the executable Spec -/
 theorem ranges_meet_spec (s : Shape ℝ) (ha : 0 < s.a) (hb : 0 < s.b) (ra : ℝ) (h1 : -360 ≤ ra) (h2 : ra < 360) :
@@ -393,6 +458,36 @@ theorem peak_pixel_consistent (ncomp xmin xmax ymin ymax : Nat) (pix : List Pix)
     · intro hall
       have := hall q0 hq0; omega
 
+/-- **pixel_count_le_extent_area** (pigeonhole): detected pixels sit at distinct positions inside the
+    extent, so the island row's `pixels` is at most `x_width · y_width` -/
+theorem pixel_count_le_extent_area (ncomp xmin xmax ymin ymax : Nat) (pix : List Pix)
+    (hbox : ∀ p ∈ pix, inBox xmin xmax ymin ymax p = true)
+    (hnd : (pix.map (fun p => (p.x, p.y))).Nodup) :
+    (islandSummary ncomp xmin xmax ymin ymax pix).pixels ≤
+      (islandSummary ncomp xmin xmax ymin ymax pix).xWidth * (islandSummary ncomp xmin xmax ymin ymax pix).yWidth :=
+  pixels_le_area xmin xmax ymin ymax pix hbox hnd
+
+/-- **extent_is_tight_box**: when the extent is the tight box of the detected pixels (what
+    `find_islands` hands over), every pixel is inside it, each of its four sides is touched by a
+    detected pixel, and the pixel count is at most its area -/
+theorem extent_is_tight_box (ncomp : Nat) (pix : List Pix) (x0 x1 y0 y1 : Nat)
+    (hb : tightBox pix = some (x0, x1, y0, y1)) (hnd : (pix.map (fun p => (p.x, p.y))).Nodup) :
+    (∀ p ∈ pix, inBox x0 x1 y0 y1 p = true) ∧
+    (∃ p ∈ pix, p.x = x0) ∧ (∃ p ∈ pix, p.x + 1 = x1) ∧ (∃ p ∈ pix, p.y = y0) ∧ (∃ p ∈ pix, p.y + 1 = y1) ∧
+    (islandSummary ncomp x0 x1 y0 y1 pix).pixels ≤ (x1 - x0) * (y1 - y0) := by
+  obtain ⟨h1, h2, h3, h4, h5⟩ := tightBox_spec pix x0 x1 y0 y1 hb
+  have hin : ∀ p ∈ pix, inBox x0 x1 y0 y1 p = true := by
+    intro p hp
+    have := h1 p hp
+    simp only [inBox, Bool.and_eq_true, decide_eq_true_eq]; omega
+  exact ⟨hin, h2, h3, h4, h5, pixels_le_area x0 x1 y0 y1 pix hin hnd⟩
+
+/-- a non-empty pixel list has a tight box -/
+theorem tight_box_exists (pix : List Pix) (hne : pix ≠ []) : ∃ b, tightBox pix = some b := by
+  cases h : tightBox pix with
+  | none => exact absurd ((tightBox_none pix).1 h) hne
+  | some b => exact ⟨b, rfl⟩
+
 /-! ### 6. Determinism -/
 
 /-- **deterministic**: the model's catalogue is a function of its input; the uuid stream influences
@@ -409,6 +504,53 @@ theorem blind_uuids_unique (u : Nat → Nat) (hu : Function.Injective u) (isles 
       = ((enumFrom 0 (rowsOf isles)).map (·.1)).map u := by simp [List.map_map, Function.comp_def]
   rw [this]
   exact List.Nodup.map hu (sorted_nodup _ (enumFrom_ids_sorted _ 0))
+
+/-! #### reproducibility as the harness checks it: a run is a function of the VALUES it is given
+
+Every model function above (`blindRows`, `refitRows`, `blindIslandFlags`, `refitFlags`, `errorsFixed`,
+`copyBack`, `islandSummary`, `peakPix`, `paLimitG`, `fixShapeG`, `raWrapG`) is a Lean function of its
+explicit arguments — component counts, island sizes, lmfit outcomes, stderr classes, pixel lists, the
+input rows' flag words and uuids.  There is no other argument: no earlier run, no object identity, no
+cache.  For the model this is by construction (`run_function_of_values` is `congrArg`); the content is
+in the heap model of the caller's catalogue, where the pinned behaviour (resize in place) is NOT a
+function of the values passed in the second call.  What remains only sampled on the real pipeline
+(in-process re-runs, interleaved histories A/B/A/B, same file rewritten, warm vs fresh interpreter,
+one catalogue list refitted twice, input list compared before/after): that lmfit/MINPACK, numpy,
+scipy.ndimage, astropy.wcs and the module/class-level state of AegeanTools (`global_data`, any cache)
+give the same numbers for the same input — e.g. the covariance-cache mutant is outside the model. -/
+
+/-- **priorized_keeps_callers_catalogue**: the repaired run leaves the caller's objects untouched -/
+theorem priorized_keeps_callers_catalogue {Out : Type} (rz : Src → Src) (fit : List Src → Out) (heap : List Src) :
+    (runFixed rz fit heap).1 = heap := rfl
+
+/-- **priorized_rerun_identical**: refitting the same catalogue object again gives the same catalogue,
+    whatever `resize` and the fit do -/
+theorem priorized_rerun_identical {Out : Type} (rz : Src → Src) (fit : List Src → Out) (heap : List Src) :
+    (runFixed rz fit (runFixed rz fit heap).1).2 = (runFixed rz fit heap).2 := rfl
+
+/-- **run_function_of_values**: two catalogue objects holding equal values give equal catalogues
+    (by construction of the model: there is nothing else a run could depend on) -/
+theorem run_function_of_values {P H O Out : Type} (run : RunInput P H O → Out) (i j : RunInput P H O)
+    (hp : i.pixels = j.pixels) (hh : i.header = j.header) (ho : i.options = j.options)
+    (hc : i.catalogue = j.catalogue) : run i = run j := by
+  cases i; cases j; simp_all
+
+/-- the pinned run is a function of the values only when `resize` is idempotent (equal catalogue and
+    image psf): the second run sees the heap the first one left behind -/
+theorem pinned_rerun (rz : Src → Src) {Out : Type} (fit : List Src → Out) (heap : List Src) :
+    (runPinned rz fit (runPinned rz fit heap).1).2 = fit ((heap.map rz).map rz) := rfl
+
+theorem pinned_rerun_same_of_idempotent {Out : Type} (rz : Src → Src) (hid : ∀ s, rz (rz s) = rz s)
+    (fit : List Src → Out) (heap : List Src) :
+    (runPinned rz fit (runPinned rz fit heap).1).2 = (runPinned rz fit heap).2 := by
+  simp [runPinned, List.map_map, Function.comp_def, hid]
+
+/-- negation witness for the pinned code: a 40″ source from a 40″-psf catalogue refitted on a 60″
+    image (resize adds the psf difference to `a`; psf is not updated) — 60 the first time, 80 the second -/
+theorem pinned_rerun_differs :
+    let rz : Src → Src := fun s => { s with a := s.a + 20, b := s.b + 15 }
+    (runPinned rz id (runPinned rz id [⟨40, 30, 40, 1⟩]).1).2 ≠ (runPinned rz id [⟨40, 30, 40, 1⟩]).2 := by
+  decide
 
 /-- The property as a whole, for the part the model carries.  PARTIAL: fit completion on arbitrary
     images, b > 0, |dec| ≤ 90, string/decimal agreement and the 1 % int-flux tolerance on a
